@@ -53,7 +53,7 @@ def generate_latest(registry):
                         raise ValueError(f"Metric {metric.name} has exemplars, but is not a histogram bucket or counter")
                     labels = '{{{0}}}'.format(','.join(
                         ['{}="{}"'.format(
-                            k, v.replace('\\', r'\\').replace('\n', r'\n').replace('"', r'\"'))
+                            escape_label_name(k), _escape(v))
                             for k, v in sorted(s.exemplar.labels.items())]))
                     if s.exemplar.timestamp is not None:
                         exemplarstr = ' # {} {} {}'.format(
